@@ -329,36 +329,80 @@ def _write_cases(path, lines):
             f.write(l + "\n")
 
 
-def run_harness(cases, workdir, timeout=600, name="i"):
+def _run_watched(cmd, env, stall, total):
+    """runs cmd, collecting stdout; kills it when it prints nothing for `stall` seconds (the harness flushes one line
+    per case, so silence means the current case hangs) or after `total` seconds; returns (stdout bytes, returncode, hung)"""
+    import select
+    p = subprocess.Popen(cmd, stdout=subprocess.PIPE, stderr=subprocess.DEVNULL, env=env)
+    fd = p.stdout.fileno()
+    os.set_blocking(fd, False)
+    out = bytearray()
+    t0 = last = time.time()
+    hung = False
+    while True:
+        r, _, _ = select.select([fd], [], [], 1.0)
+        now = time.time()
+        if r:
+            chunk = os.read(fd, 1 << 20)
+            if chunk:
+                out += chunk
+                last = now
+                continue
+            break  # EOF
+        if p.poll() is not None:
+            continue_reading = os.read(fd, 1 << 20) if select.select([fd], [], [], 0)[0] else b""
+            out += continue_reading
+            if not continue_reading:
+                break
+        if now - last > stall or now - t0 > total:
+            hung = True
+            p.kill()
+            break
+    try:
+        p.wait(timeout=10)
+    except Exception:
+        p.kill()
+    try:
+        rest = os.read(fd, 1 << 24)
+        out += rest or b""
+    except Exception:
+        pass
+    p.stdout.close()
+    return bytes(out), (p.returncode if p.returncode is not None else -1), hung
+
+
+def run_harness(cases, workdir, timeout=600, name="i", stall=None):
     """returns list of observations (strings); PANIC / ABORT / HANG are produced here"""
+    stall = stall or float(os.environ.get("VERIF_STALL", "40"))
     obs = [None] * len(cases)
     start = 0
     rounds = 0
+    hangs = 0
     while start < len(cases):
         rounds += 1
         path = os.path.join(workdir, "%s_%d.cases" % (name, rounds))
         _write_cases(path, ["%d\t%s\t%s" % (i, cases[i].op, "\t".join(cases[i].args)) for i in range(start, len(cases))])
-        try:
-            p = subprocess.run([HARNESS_BIN, path], stdout=subprocess.PIPE, stderr=subprocess.PIPE, timeout=timeout,
-                               env=dict(os.environ, TMPDIR=workdir))  # scratch trees of the harness live (and die) with the work dir
-            out, rc, hung = p.stdout, p.returncode, False
-        except subprocess.TimeoutExpired as e:
-            out, rc, hung = e.stdout or b"", -1, True
+        # scratch trees of the harness live (and die) with the work dir
+        out, rc, hung = _run_watched([HARNESS_BIN, path], dict(os.environ, TMPDIR=workdir), stall, timeout)
         n = 0
         for line in out.decode("utf-8", "replace").split("\n"):
             if "\t" not in line:
                 continue
             i, o = line.split("\t", 1)
-            obs[int(i)] = o
+            try:
+                obs[int(i)] = o
+            except ValueError:
+                continue
             n += 1
-        if start + n >= len(cases) and rc == 0:
+        if start + n >= len(cases) and rc == 0 and not hung:
             break
         # the case after the last answered one killed or stalled the process
         bad = start + n
         if bad < len(cases):
             obs[bad] = "HANG" if hung else "ABORT"
+        hangs += 1 if hung else 0
         start = bad + 1
-        if rounds > 50:
+        if rounds > 50 or hangs >= 3:
             for i in range(start, len(cases)):
                 obs[i] = "NOT-RUN"
             break
